@@ -183,8 +183,16 @@ def gen_input(rng, kind_hint=None):
             for h in s_.hunks:
                 # the documented ambiguity of plain diff -u: '+++ ' content looks like a header
                 h.lines = [(kk, t if not (kk == '+' and t.startswith('++ ')) else 'pp' + t[2:]) for kk, t in h.lines]
+        strip = rng.random() < 0.35
+        if strip:
+            # empty unchanged lines without their blank (diff -u --suppress-blank-empty, white space stripped on the way)
+            for s_ in d.sections:
+                for h in s_.hunks:
+                    h.lines = [(kk, '' if kk == ' ' and rng.random() < 0.5 else t) for kk, t in h.lines]
         rl = d.role_lines()
-        return 'plain-diff', [l.encode() for _, l in rl], [r for r, _ in rl], True
+        if strip:
+            rl = [(r, '' if (r == 'hunk' and l == ' ') else l) for r, l in rl]
+        return 'plain-diff' + ('-stripped-blanks' if strip else ''), [l.encode() for _, l in rl], [r for r, _ in rl], True
     d = gen.gen_diff(rng, kinds=['binary', 'mode_only', 'renamed', 'copied', 'empty_added', 'binary_added', 'deleted', 'added'])
     rl = d.role_lines()
     return 'no-hunk-sections', [l.encode() for _, l in rl], [r for r, _ in rl], True
